@@ -4,7 +4,7 @@
    process_action bodies; can_move is the independent specification computed from the agents'
    positions alone; ginv is the consistency invariant of C03. *)
 From Coq Require Import ZArith List Bool Arith Lia.
-From Abm Require Import Base.Sx Grid.Overlap Grid.Grid Grid.Move Proofs.Grid_proofs Proofs.Move_proofs.
+From Abm Require Import Base.Sx Grid.Overlap Grid.Grid Grid.Move Proofs.Grid_proofs Proofs.Move_proofs Proofs.Init_proofs.
 Import ListNotations.
 Open Scope Z_scope.
 
@@ -68,12 +68,12 @@ Proof. exact mops_inv. Qed.
 Print Assumptions C12_inv_reachable.
 
 Theorem C12_init_inv : forall rows cols ov ags,
-  ov_sym (ov_symmetrise ov) -> Forall vitals_ok ags -> Forall (fun a => a_active a = true) ags ->
+  NoDup (map fst ov) -> Forall vitals_ok ags -> Forall (fun a => a_active a = true) ags ->
   Forall (fun a => match a_pos a with
                    | Some q => (0 <=? fst q) && (fst q <? rows) && (0 <=? snd q) && (snd q <? cols) = true
                    | None => True end) ags ->
   ginv (init_state rows cols ov ags).
-Proof. exact init_state_inv. Qed.
+Proof. exact init_state_inv_table. Qed.
 Print Assumptions C12_init_inv.
 
 (* ---- non-vacuity: a 2x3 grid, two agents that may not overlap, one that may ------------------ *)
